@@ -594,6 +594,11 @@ class Interp:
     # linear algebra (small)
     def p_cholesky(self, e, a):
         A = self.lift(a[0])
+        if A.ndim > 2:        # batched (vmap): factorise every matrix of the batch
+            out = np.empty(A.shape, dtype=object)
+            for idx in np.ndindex(*A.shape[:-2]):
+                out[idx] = self.p_cholesky(e, [A[idx]])
+            return out
         n = A.shape[-1]
         if self.chol == "contract":
             if A.ndim != 2:
@@ -635,6 +640,11 @@ class Interp:
         unit = p["unit_diagonal"]
         if p.get("conjugate_a"):
             pass
+        if A.ndim > 2 and A.ndim == B.ndim and A.shape[:-2] == B.shape[:-2]:
+            out = np.empty(B.shape, dtype=object)
+            for idx in np.ndindex(*A.shape[:-2]):
+                out[idx] = self.p_triangular_solve(e, [A[idx], B[idx]])
+            return out
         if A.ndim != 2 or B.ndim != 2:
             raise Unsupported("triangular_solve batched")
         tr = str(trans).endswith("TRANSPOSE") and not str(trans).endswith("NO_TRANSPOSE")
